@@ -16,6 +16,7 @@ import (
 	"github.com/mholt/archiver"
 
 	"github.com/cube2222/octosql/config"
+	"github.com/cube2222/octosql/helpers/verifhook"
 	"github.com/cube2222/octosql/plugins/repository"
 )
 
@@ -186,14 +187,17 @@ func (m *PluginManager) Install(ctx context.Context, name string, constraint *se
 
 	newPluginDir := filepath.Join(getPluginDir(), repoSlug, fmt.Sprintf("octosql-plugin-%s", name), version.Number.String())
 
+	verifhook.CrashPoint("install:before-remove-old-version-dir")
 	if err := os.RemoveAll(newPluginDir); err != nil {
 		return fmt.Errorf("couldn't remove old plugin directory: %w", err)
 	}
 
+	verifhook.CrashPoint("install:after-remove-old-version-dir")
 	if err := os.MkdirAll(newPluginDir, os.ModePerm); err != nil {
 		return fmt.Errorf("couldn't create plugins directory: %w", err)
 	}
 	archiveFilePath := filepath.Join(newPluginDir, "archive.tar.gz")
+	verifhook.CrashPoint("install:after-mkdir-version-dir")
 
 	// Anonymous function to take care of defers before we move forward.
 	err = func() error {
@@ -214,6 +218,7 @@ func (m *PluginManager) Install(ctx context.Context, name string, constraint *se
 		}
 		defer f.Close()
 
+		verifhook.CrashPoint("install:archive-file-created-empty")
 		if _, err := io.Copy(f, res.Body); err != nil {
 			return fmt.Errorf("couldn't download plugin archive: %w", err)
 		}
@@ -223,17 +228,21 @@ func (m *PluginManager) Install(ctx context.Context, name string, constraint *se
 		return err
 	}
 
+	verifhook.CrashPoint("install:after-download-before-unarchive")
 	if err := archiver.NewTarGz().Unarchive(archiveFilePath, newPluginDir); err != nil {
 		return fmt.Errorf("couldn't unarchive plugin archive: %w", err)
 	}
 
+	verifhook.CrashPoint("install:after-unarchive-before-remove-archive")
 	if err := os.Remove(archiveFilePath); err != nil {
 		return fmt.Errorf("couldn't remove plugin archive: %w", err)
 	}
 
+	verifhook.CrashPoint("install:after-remove-archive-before-register-extensions")
 	if err := registerFileExtensions(plugin.Name, plugin.FileExtensions); err != nil {
 		return fmt.Errorf("couldn't register file extensions: %w", err)
 	}
+	verifhook.CrashPoint("install:done")
 
 	return nil
 }
